@@ -28,8 +28,15 @@ def drop_blocks(src, start_re):
         m = re.search(start_re, out)
         if not m:
             return out
-        i = out.find("{", m.end())
-        semi = out.find(";", m.end())
+        # first `{` or `;` outside (), [] and <> nesting: `fn f() -> [u64; 3] {` has a body, `use a::b;` has none
+        i, semi, nest, k = -1, -1, 0, m.end()
+        while k < len(out):
+            ch = out[k]
+            if ch in "([": nest += 1
+            elif ch in ")]": nest -= 1
+            elif ch == "{" and nest <= 0: i = k; break
+            elif ch == ";" and nest <= 0: semi = k; break
+            k += 1
         if i == -1 or (semi != -1 and semi < i):
             # an item without a body: blank the attribute line only
             out = out[:m.start()] + " " * (m.end() - m.start()) + out[m.end():]
